@@ -89,10 +89,11 @@ PROPS["C04"] = dict(
     rule="history of parse calls and resets on one tokener; non-trivial = some call did not succeed, or a text was fed in >1 chunk, or a reset follows a non-success outcome; distinct by hash of (flags, depth, chunk sequence, resets)",
     quick=[dict(mode="hist", cases=150000, workers=8, maxbytes=2500)],
     thorough=[dict(mode="hist", cases=12000000, workers=16, maxbytes=4000),
+              dict(mode="hugetoken", enum=True, size=2, workers=2),
               dict(mode="hist", fuzz=True, secs=400, jobs=8, max_len=1024),
               dict(mode="bytes", fuzz=True, secs=400, jobs=8, max_len=256, dict="fuzz/tokener_parse_ex.dict")],
     min_labels=dict(quick=dict(reset_after_nonsuccess=20000, small_depth=20000, garbage_flags=10000)),
-    assumptions=["flags are constant over one history", "inputs <= 400 bytes per text in generated modes (the code imposes only INT32_MAX)"],
+    assumptions=["flags are constant over one history", "inputs <= 400 bytes per text in generated modes (the code imposes only INT32_MAX); the thorough tier adds two histories with one token fed up to 2.25 GiB (needs ~6 GiB per worker, skipped below 12 GiB of available memory)"],
 )
 
 PROPS["C15"] = dict(
